@@ -393,6 +393,6 @@ func run(c Case) vt.Verdict { return execute(c, "h") }
 func TestProp(t *testing.T) {
 	vt.Run(t, prop,
 		vt.Func[OrderCase]{Name: "orders", Body: ordersBody, One: runOrder},
-		vt.Sub[Case]{Prop: prop, Name: "history", Gen: gen, Run: run, Classify: classify}.WithBudget(1500, 15000),
+		vt.Sub[Case]{Prop: prop, Name: "history", Gen: gen, Run: run, Classify: classify}.WithBudget(4000, 15000),
 	)
 }
